@@ -14,7 +14,7 @@ INFO = {
                "PartialEq); Uniquness::process forwards the row exactly when HashSet::insert answered true, returns "
                "the successor's answer, answers Continue otherwise, and inserts the key of the very row it "
                "forwards; Context::key chooses between the input and the selected values only by whether any "
-               "selection exists.",
+               "selection exists. NumberValue::eq, evaluated by partial evaluation on all pairs of the interoperable universe, equals exact rational equality; Hash::hash feeds equal canonical numbers the same sequence; every return of Uniquness::process has consulted the key set and the stage holds no other state.",
     "not_decided": "The value logic of NumberValue::eq on run-time numbers; -0 and member-order permutations are "
                    "outside the property's own quantifier.",
     "trusted": ["std HashSet: insert returns true iff the value was not present (by Eq + Hash)"],
